@@ -129,7 +129,11 @@ func verifH_C06_join() {
 	if selfJoin {
 		w2 = w1
 	}
-	rm := &verifRM{tables: map[string]*verifStubTable{"t1": t1, "t2": t2, "t3": t3}}
+	stub := &verifRM{tables: map[string]*verifStubTable{"t1": t1, "t2": t2, "t3": t3}}
+	var rm RelationManager = stub
+	if verifParam("real", 0) == 1 {
+		rm = verifRealize(stub, []string{"t1", "t2", "t3"})
+	}
 	flag := func(t *verifStubTable) []verifFlagRow {
 		var out []verifFlagRow
 		for _, r := range t.rows {
